@@ -27,6 +27,7 @@ import (
 	"time"
 
 	nrinet "github.com/containerd/nri/pkg/net"
+	"github.com/containerd/nri/pkg/vhook"
 	"github.com/containerd/ttrpc"
 )
 
@@ -207,6 +208,7 @@ func (m *mux) Open(id ConnID) (net.Conn, error) {
 
 func (m *mux) Close() error {
 	m.closeOnce.Do(func() {
+		vhook.Point("mux.close", m)
 		m.connLock.Lock()
 		defer m.connLock.Unlock()
 		for _, conn := range m.conns {
@@ -242,11 +244,14 @@ func (m *mux) write(id ConnID, buf []byte) (int, error) {
 
 	m.writeLock.Lock()
 	defer m.writeLock.Unlock()
+	vhook.Point("mux.wlocked", m, uint32(id), len(buf))
+	defer vhook.Point("mux.wunlocking", m, uint32(id))
 
 	for {
 		if size > maxPayloadSize {
 			size = maxPayloadSize
 		}
+		vhook.Point("mux.whdr", m, uint32(id), data[:size])
 
 		binary.BigEndian.PutUint32(hdr[0:4], uint32(id))
 		binary.BigEndian.PutUint32(hdr[4:8], uint32(size))
@@ -262,6 +267,7 @@ func (m *mux) write(id ConnID, buf []byte) (int, error) {
 		}
 
 		n, err = m.trunk.Write(data[:size])
+		vhook.Point("mux.wpay", m, uint32(id), size, err)
 		if err != nil {
 			err = fmt.Errorf("failed to write payload to trunk: %w", err)
 			if n != 0 {
@@ -304,6 +310,7 @@ func (m *mux) reader() {
 
 		_, err = io.ReadFull(m.trunk, hdr[:])
 		if err != nil {
+			vhook.Point("mux.rerr", m, "header", err)
 			switch {
 			case errors.Is(err, io.EOF):
 			case errors.Is(err, ttrpc.ErrClosed):
@@ -326,6 +333,7 @@ func (m *mux) reader() {
 
 		_, err = io.ReadFull(m.trunk, buf)
 		if err != nil {
+			vhook.Point("mux.rerr", m, "payload", err)
 			switch {
 			case errors.Is(err, io.EOF):
 			case errors.Is(err, ttrpc.ErrClosed):
@@ -345,10 +353,12 @@ func (m *mux) reader() {
 		m.connLock.RLock()
 		conn, ok := m.conns[ConnID(cid)]
 		m.connLock.RUnlock()
+		vhook.Point("mux.rframe", m, cid, buf, ok)
 		if ok {
 			select {
 			case conn.readC <- buf:
 			default:
+				vhook.Point("mux.rovf", m, cid)
 				m.setError(errors.New("failed to queue payload for reading"))
 				m.Close()
 				return
